@@ -9,6 +9,7 @@
 from __future__ import annotations
 
 import itertools
+import os
 import re
 import signal
 
@@ -121,7 +122,10 @@ for g in _GEM:
     RAW_LINES.append(g + b"\r\n")
 _SPARTAN = [b"h / 0", b"h /f.txt 0", b"h /f.txt 3\r\nabc", b"h /f.txt 9\r\nabc", b"h /f.txt 0\r\nabc", b"h /%0d%0a2 x 0", b"h /x%0ay 0",
             b"h f.txt 0", b"h /a/ 00", b"h /f.txt -1", b"h /f.txt 1e3", b"h  /f.txt 0", b"h /%00 0", b"h /p.pyg 3\r\n\xff\xfe\xfd", b"h /../x 0",
-            b"h / \xc2\xb2", b"h /f.txt \xd9\xa1", b"h /f.txt \xe2\x91\xa0", b"h\xc3\xa9 /f.txt 0", b"h /f\xc3\xa9 0", b"h /f.txt 0\xc2\xa0"]
+            b"h / \xc2\xb2", b"h /f.txt \xd9\xa1", b"h /f.txt \xe2\x91\xa0", b"h\xc3\xa9 /f.txt 0", b"h /f\xc3\xa9 0", b"h /f.txt 0\xc2\xa0",
+            # lengths at and beyond what an integer, a read() and a digit-string conversion accept
+            b"h / 9223372036854775807", b"h / 9223372036854775808", b"h /f.txt 999999999999999999999999999", b"h / " + b"9" * 4300, b"h / " + b"9" * 5000, b"h /p.pyg 18446744073709551616\r\nabc",
+            b"h / 2147483648", b"h /f.txt 000000000000000000000000000000000000003\r\nabc"]
 for s in _SPARTAN:
     RAW_LINES.append(s + (b"\r\n" if b"\r\n" not in s else b""))
 
@@ -343,6 +347,8 @@ MENU_B = [
     # requests that carry a search string, and the script that shows its whole request environment without one
     ("gopher", b"/env.sh", b"needle one"), ("http", b"/env.sh", b"needle two"), ("gemini", b"/p.pyg", b"needle three"), ("gopher", b"/env.sh"), ("http", b"/env.sh"),
     ("sgopher", b"/env.sh"), ("gopher", b"/env.sh|args here"), ("gopher", b"/p.pyg"), ("gopher", b"/f.txt", b"search on a plain file"),
+    # one directory under several names
+    ("gopher", b"/alias-of-a"), ("http", b"/alias-of-a"), ("gopher", b"/gm/up-to-a"), ("gopher", b"/alias-of-a/deep"), ("gopher", b"/emptydir/self"), ("gopher", b"/emptydir/self/self"),
 ]
 ENV_SH = b"#!/bin/sh\necho ENV-SCRIPT \"$@\"\nenv | grep -E '^(SERVER_|REMOTE_|SELECTOR|REQUEST|SEARCHREQUEST|GATEWAY|QUERY|HTTP_|PATH_)' | sort\n"
 
@@ -373,7 +379,12 @@ _b_handlers = "full"
 def _fresh_b(cachetime):
     spec = worlds.standard_spec(full=True)
     spec["env.sh"] = ("exec", ENV_SH)
-    return rig.World(spec, handlers=_b_handlers, cachetime=cachetime, tag="c03b")
+    w = rig.World(spec, handlers=_b_handlers, cachetime=cachetime, tag="c03b")
+    # other names of the same directories, inside the document root
+    os.symlink("a", os.path.join(w.root, "alias-of-a"))
+    os.symlink("../a", os.path.join(w.root, "gm", "up-to-a"))
+    os.symlink(".", os.path.join(w.root, "emptydir", "self"))
+    return w
 
 
 def _run_history(hist, cachetime, fresh_answers):
